@@ -14,6 +14,7 @@ from crosshair.tracers import NoTracing
 from vp.kit import fresh
 from vp.ob import ob, product
 from csvpath.matching.matcher import Matcher
+import os
 
 QUALS = ["onmatch", "latch", "onchange", "increase", "decrease", "notnone", "asbool", "nocontrib"]
 
@@ -136,3 +137,199 @@ def parser_quals_ok() -> bool:
         if list(eq.left.qualifiers) != qs or eq.left.name != "x":
             return False
     return True
+
+
+# ------------------------------------------------------------------ O1a (E3): AST -> z3 translation of the decision kernel
+def _e3_build():
+    import z3
+    from vp.e3_pyk2smt import Interp, OptInt, ite
+    from csvpath.matching.productions.equality import Equality
+
+    AND = z3.Bool("AND")
+    q = {k: z3.Bool(k) for k in QUALS}
+    cur, y = OptInt.fresh("cur"), OptInt.fresh("y")
+    lm = z3.Bool("lm")
+    st = {"written": z3.BoolVal(False), "wval": OptInt.none()}
+
+    def set_variable(I, fr, name, value=None, tracking=None):
+        g = I.active(fr)
+        st["wval"] = ite(g, value, st["wval"])
+        st["written"] = z3.Or(st["written"], g)
+
+    def asbool(I, fr, v):  # ExpressionUtility.asbool restricted to Optional[int]: None and 0 are False
+        return z3.And(z3.Not(v.isnone), v.val != 0)
+
+    handlers = {
+        "self.default_match": lambda I, fr: AND,
+        "self._test_friendly_line_matches": lambda I, fr, m: m,
+        "self.matcher.set_variable": set_variable,
+        "ExpressionUtility.asbool": asbool,
+        "__ignore__": ("self.assign", "self.matcher.csvpath.logger"),
+    }
+    I = Interp(Equality, handlers, st)
+    args = dict(q)
+    args.update(noqualifiers=z3.BoolVal(False), count=z3.BoolVal(False), new_value=y, name="x", tracking=None, current_value=cur, line_matches=lm)
+    ret = I.call_method("_do_assignment_new_impl", [], dict(name="x", tracking=None, args=args), z3.BoolVal(True))
+    return AND, q, cur, y, lm, ret, st, I
+
+
+def _e3_oracle(AND, q, cur, y, lm):
+    """docs/assignment.md as z3 terms (the same table as assign_oracle above)"""
+    import z3
+
+    dm = AND
+    rest = lm == dm
+    same = z3.Or(z3.And(cur.isnone, y.isnone), z3.And(z3.Not(cur.isnone), z3.Not(y.isnone), cur.val == y.val))
+    ty = z3.And(z3.Not(y.isnone), y.val != 0)
+    gate = z3.Or(z3.Not(q["onmatch"]), rest)
+    lo = z3.Or(q["latch"], q["onchange"])
+    blocked_by_latch = z3.And(q["latch"], z3.Not(cur.isnone), z3.Not(same))
+    attempt = z3.And(gate, z3.Not(z3.And(lo, same)), z3.Not(blocked_by_latch))
+    blk = z3.Or(
+        z3.And(q["notnone"], y.isnone),
+        z3.And(q["increase"], z3.Or(y.isnone, z3.And(z3.Not(cur.isnone), z3.Not(y.val > cur.val)))),
+        z3.And(z3.Not(z3.And(q["increase"], z3.Or(y.isnone, z3.And(z3.Not(cur.isnone), z3.Not(y.val > cur.val))))),
+               q["decrease"], z3.Or(y.isnone, z3.And(z3.Not(cur.isnone), z3.Not(y.val < cur.val)))),
+    )
+    written = z3.And(attempt, z3.Not(blk))
+    negative = z3.Or(z3.Not(gate), z3.And(gate, lo, same, q["onchange"]), z3.And(attempt, blk))
+    vote = z3.If(negative, z3.Not(dm), dm)
+    vote = z3.If(z3.And(q["asbool"], vote == dm), ty, vote)
+    vote = z3.If(q["nocontrib"], dm, vote)
+    return vote, written
+
+
+_BUILT = None
+
+
+def _real_kernel(quals, cur, y, lm, AND):
+    """the real method on concrete inputs -> (returned vote, written?, value)"""
+    global _BUILT
+    if _BUILT is None:
+        _BUILT = build(TEXT, [False] * 8)
+    p, pr, eq = _BUILT
+    p.matcher._AND = AND
+    p.variables.clear()
+    if cur is not None:
+        p.variables["x"] = cur
+    args = dict(zip(QUALS, quals))
+    args.update(noqualifiers=False, count=False, new_value=y, name="x", tracking=None, current_value=cur, line_matches=lm)
+    calls = []
+    orig = type(p.matcher).set_variable
+
+    def rec(name, *, value=None, tracking=None):
+        calls.append(value)
+        return orig(p.matcher, name, value=value, tracking=tracking)
+
+    p.matcher.set_variable = rec
+    try:
+        ret = eq._do_assignment_new_impl(name="x", tracking=None, args=args)
+    finally:
+        del p.matcher.set_variable
+    return (ret, len(calls) > 0, calls[-1] if calls else None)
+
+
+@ob(
+    "C14",
+    "O1a-kernel-translation",
+    kind="query",
+    bound="the source of Equality._do_assignment_new_impl, _latch_and_onchange and _set_variable_if is read with inspect and "
+    "translated statement by statement into z3 terms (if-then-else merging); ONE query compares the vote and the write with the "
+    "table of docs/assignment.md for all 2^8 qualifier subsets x both logic modes x rest-of-line x ALL Optional[int] values of the "
+    "current and the new value (unbounded mathematical ints); a second query shows no TypeError can be raised; the translator is "
+    "validated against the real method on 2000 random concrete inputs",
+    outside="string-valued operands; Qualified.line_matches itself (covered by O2-step); increase together with decrease",
+    encodes=["csvpath/matching/productions/equality.py:Equality._do_assignment_new_impl/_latch_and_onchange/_set_variable_if (AST -> z3)"],
+    tiers={"quick": {"timeout": 300}},
+)
+def kernel_translation(tier, cfg, shard, carve):
+    import random
+    import time
+    import z3
+
+    t0 = time.time()
+    try:
+        AND, q, cur, y, lm, ret, st, I = _e3_build()
+    except NotImplementedError as e:
+        return {"verdict": "CANNOT_CONFIRM", "message": "unmodelled construct: " + str(e)[:300], "cex": None, "z3_queries": 0, "z3_s": 0, "paths": 0}
+    t_tr = time.time() - t0
+    ov, ow = _e3_oracle(AND, q, cur, y, lm)
+    dom = z3.Not(z3.And(q["increase"], q["decrease"]))
+    # translator validation on concrete inputs (not the deciding step)
+    rnd = random.Random(int(os.environ.get("VERIF_SEED", "0") or 0))
+    agreed = 0
+    for _ in range(2000):
+        vals = [rnd.random() < 0.5 for _ in QUALS]
+        c = rnd.choice([None, 0, 1, 2, -1, 5])
+        yy = rnd.choice([None, 0, 1, 2, -1, 5])
+        l = rnd.random() < 0.5
+        A = rnd.random() < 0.5
+        real = _real_kernel(vals, c, yy, l, A)
+        sub = [(AND, z3.BoolVal(A)), (lm, z3.BoolVal(l)), (cur.isnone, z3.BoolVal(c is None)), (cur.val, z3.IntVal(c or 0)),
+               (y.isnone, z3.BoolVal(yy is None)), (y.val, z3.IntVal(yy or 0))] + [(q[k], z3.BoolVal(v)) for k, v in zip(QUALS, vals)]
+        if z3.is_true(z3.simplify(z3.substitute(I.errors, *sub))):
+            continue  # the real method raises TypeError here (e.g. ordering None): nothing to compare
+        enc_ret = z3.is_true(z3.simplify(z3.substitute(ret, *sub)))
+        enc_w = z3.is_true(z3.simplify(z3.substitute(st["written"], *sub)))
+        if enc_ret != real[0] or enc_w != real[1]:
+            return {"verdict": "CANNOT_CONFIRM", "message": f"translator disagrees with the real method on {dict(zip(QUALS, vals))} cur={c} y={yy} lm={l} AND={A}: "
+                    f"encoding ({enc_ret},{enc_w}) real {real}", "cex": None, "z3_queries": 0, "z3_s": 0, "paths": 0}
+        agreed += 1
+    zs = 0.0
+    s0 = z3.Solver()
+    s0.add(dom, z3.Not(I.errors))
+    if str(s0.check()) != "sat":
+        return {"verdict": "VACUOUS", "message": "domain unsatisfiable", "cex": None, "z3_queries": 1, "z3_s": 0, "paths": 0}
+    s = z3.Solver()
+    s.set("timeout", 240000)
+    s.add(dom, z3.Not(I.errors))
+    wv = st["wval"]
+    s.add(z3.Or(ret != ov, st["written"] != ow, z3.And(ow, z3.Not(z3.And(wv.isnone == y.isnone, z3.Or(y.isnone, wv.val == y.val))))))
+    t = time.time()
+    r = s.check()
+    zs += time.time() - t
+    out = {"z3_queries": 3, "paths": 1, "engine": "AST->z3 translation + z3", "witness": {"translated_in_s": round(t_tr, 3), "validated_on_random_inputs": agreed},
+           "extra": {"translator_validation_inputs": agreed, "translate_s": round(t_tr, 3)}}
+    if str(r) == "sat":
+        m = s.model()
+
+        def ov_(o):
+            return None if z3.is_true(m.eval(o.isnone, model_completion=True)) else m.eval(o.val, model_completion=True).as_long()
+
+        cex = {"quals": [z3.is_true(m.eval(q[k], model_completion=True)) for k in QUALS], "cur": ov_(cur), "y": ov_(y),
+               "lm": z3.is_true(m.eval(lm, model_completion=True)), "AND": z3.is_true(m.eval(AND, model_completion=True))}
+        out.update({"verdict": "SAT", "message": "kernel differs from docs/assignment.md", "cex": cex, "z3_s": round(zs, 3)})
+        return out
+    if str(r) != "unsat":
+        out.update({"verdict": "CANNOT_CONFIRM", "message": f"solver: {r}", "cex": None, "z3_s": round(zs, 3)})
+        return out
+    s2 = z3.Solver()
+    s2.add(dom, I.errors, z3.Not(cur.isnone), z3.Not(y.isnone))
+    t = time.time()
+    r2 = s2.check()
+    zs += time.time() - t
+    if str(r2) != "unsat":
+        out.update({"verdict": "CANNOT_CONFIRM", "message": f"the kernel may raise on int operands: {r2}", "cex": None, "z3_s": round(zs, 3)})
+        return out
+    out.update({"verdict": "UNSAT", "message": "", "cex": None, "z3_s": round(zs, 3)})
+    return out
+
+
+def replay_kernel_translation(args):
+    quals = args["quals"]
+    A = args["AND"]
+    real = _real_kernel(quals, args["cur"], args["y"], args["lm"], A)
+    rest = args["lm"] == A
+    new, vote = assign_oracle(*quals, args["cur"], args["y"], rest)
+    # assign_oracle's vote is 'positive?'; the method returns default_match (= AND) for positive, its negation for negative,
+    # except that asbool returns the plain truth of y
+    if quals[QUALS.index("nocontrib")]:
+        want_ret = A
+    elif quals[QUALS.index("asbool")]:
+        base_new, base_vote = assign_oracle(*[qv if k != "asbool" else False for k, qv in zip(QUALS, quals)], args["cur"], args["y"], rest)
+        want_ret = asbool_of(args["y"]) if base_vote else (not A)
+    else:
+        want_ret = A if vote else (not A)
+    want_written = new != args["cur"] or (real[1] and real[2] == args["cur"])
+    bad = real[0] != want_ret or (real[1] and real[2] != new) or (not real[1] and new != args["cur"])
+    return (bad, f"real (vote, written, value)={real}; documented vote={want_ret}, value afterwards={new}")
